@@ -14,8 +14,7 @@ Lemma inv_tau_delete s i s' :
 Proof.
   intros HI He Hpc Hs. unfold tau in Hs. rewrite Hpc in Hs.
   destruct (a_ref (act s i)) as [j|] eqn:Hr; [|discriminate]. own HI j i. start Hs.
-  Time solve_inv HI.
-  all: idtac "DELETE REMAINING". Show.
+  solve_inv HI.
 Qed.
 
 Lemma inv_tau_hasf s i s' :
@@ -24,8 +23,7 @@ Proof.
   intros HI He Hpc Hs. unfold tau in Hs. rewrite Hpc in Hs.
   destruct (a_ref (act s i)) as [j|] eqn:Hr; [|discriminate]. own HI j i.
   cbn [fix_b fixed andb] in Hs. start Hs.
-  Time solve_inv HI.
-  all: idtac "HASF REMAINING".
+  solve_inv HI.
   apply andb_prop in H0 as [_ Hc]. apply negb_true_iff in Hc.
   pose proof (c_post _ _ HI i) as P. rewrite Hpc in P. specialize (P eq_refl).
   pose proof (c_out_own _ _ HI i _ _ P) as (_ & Q & _).
@@ -38,9 +36,7 @@ Proof.
   intros HI He Hpc Hs. unfold tau in Hs. rewrite Hpc in Hs.
   destruct (a_ref (act s i)) as [j|] eqn:Hr; [|discriminate]. own HI j i.
   destruct (a_hasf (act s i)) eqn:Hh; start Hs.
-  - Time solve_inv HI.
-    all: idtac "COPY1 REMAINING". Show.
-  - Time solve_inv HI.
-    all: idtac "COPY2 REMAINING". Show.
+  - solve_inv HI.
+  - solve_inv HI.
 Qed.
 End S.
